@@ -25,7 +25,7 @@ def rand_style(rng: random.Random):
         "empty": rng.choice(["self", "pair", "mix"]),
         "raw_gt": rng.random() < 0.5,
         "charref": rng.choice(["raw", "ascii", "hex", "mix"]),
-        "trail": rng.choice(["\n", "", "\n\n", " "]),
+        "trail": rng.choice(["\n", "", "\n\n", " ", "\r\n"]),
         "pad": rng.random() < 0.3,
         "tagspace": rng.random() < 0.3,
         "seed": rng.randrange(1 << 30),
